@@ -380,6 +380,7 @@ type World struct {
 	Gate       GateFn
 	jobAlive   atomic.Bool
 	holdAcks   atomic.Bool
+	holdEvents atomic.Bool
 	jobEpoch   atomic.Int64
 	// observations
 	StartCkpts    []uint64
@@ -499,7 +500,17 @@ func (w *World) noteRestoredSplits(seen map[string]int) {
 // which keeps a checkpoint pending for as long as the harness wants.
 func (w *World) HoldAcks(on bool) { w.holdAcks.Store(on) }
 
+// HoldEvents makes every HandleEventBatch call wait (the operators are busy).
+func (w *World) HoldEvents(on bool) { w.holdEvents.Store(on) }
+
 func (w *World) gate(kind, from, to string) {
+	if kind == "events" {
+		// (operators that do not take events for a while: a slow handler, a long
+		// alignment; at most 2 s)
+		for i := 0; i < 40000 && w.holdEvents.Load(); i++ {
+			time.Sleep(50 * time.Microsecond)
+		}
+	}
 	if kind == "op-ack" || kind == "sr-ack" {
 		for i := 0; i < 40000 && w.holdAcks.Load(); i++ {
 			time.Sleep(50 * time.Microsecond)
